@@ -151,7 +151,14 @@ func TestVerifC01ClientNames(t *testing.T) {
 		panv := &struct{ id int }{id}
 		return func() {
 			ctx := context.Background()
-			emit(verifEv{"e": "callStart", "c": id, "api": "doAcc", "ctx": "live", "acc": []string{"ok", "accErr"}})
+			ctxKind := "live"
+			if (choice>>12)%8 == 0 { // a context that is already done: the call touches nothing
+				ctxKind = "done"
+				c2, cancel := context.WithCancel(ctx)
+				cancel()
+				ctx = c2
+			}
+			emit(verifEv{"e": "callStart", "c": id, "api": "doAcc", "ctx": ctxKind, "acc": []string{"ok", "accErr"}})
 			invoker := func(ctx context.Context, method string, req, reply any, cc *grpc.ClientConn, opts ...grpc.CallOption) error {
 				emit(verifEv{"e": "reqStart", "c": id})
 				emit(verifEv{"e": "reqEnd", "c": id, "out": out})
@@ -183,6 +190,8 @@ func TestVerifC01ClientNames(t *testing.T) {
 				ret = "same"
 			case err == breaker.ErrServiceUnavailable:
 				ret = "unavail"
+			case err == ctx.Err():
+				ret = "ctx"
 			}
 			emit(verifEv{"e": "callEnd", "c": id, "ret": ret, "pan": pan})
 		}
